@@ -5,6 +5,7 @@ import ast
 
 from ..source import norm
 from . import dg_rules as dg
+from . import core_folds as cf
 from .common import is_name, params, returns_of
 from .vector_rules import check_component_map, VECTOR
 
@@ -23,59 +24,36 @@ TRUSTED = ("CPython ast", "numpy indexing semantics")
 
 
 def r1_gate(run, tree):
-    run.rule("C06.R1", "shape gate dominates every store in __setitem__; tested shape derived from current members",
-             "path rule (dominance)", "", floor=4)
-    dg.check_setitem_gate(run, tree)
+    run.rule("C06.R1", "insertion gate over finite histories: mis-shaped items rejected with the group and the value unchanged, in every "
+             "state of the group (fresh, emptied by del/pop/clear, first member removed, replaced member, update on empty/non-empty)",
+             "D7 fold of the Datagroup class (ModelEval)", "", floor=10)
+    cf.check_datagroup_histories(run, tree)
 
 
 def r2_single_writer(run, tree):
-    run.rule("C06.R2", "single writer of the backing dict; constructor/update insert through __setitem__",
-             "who-may-write over the whole package", "", floor=4)
-    n = dg.check_single_writer(run, tree, dg.DG, "_container")
-    dg.check_insertion_via_setitem(run, tree, dg.DG, ["__init__", "update"])
-    # copy re-inserts through the constructor
-    ci = tree.cls(dg.DG)
-    fi = tree.method(ci, "copy")
-    if fi is not None:
-        rets = returns_of(fi.node)
-        ok = len(rets) == 1 and isinstance(rets[0].value, ast.Call) and norm(rets[0].value.func) in (
-            "%s.__class__" % params(fi)[0], "Datagroup", "type(%s)" % params(fi)[0])
-        run.ob(dg.DG + ".copy::via-constructor", ok, fi.where(), "copy builds the new group with %s" % (
-            norm(rets[0].value.func) if rets and isinstance(rets[0].value, ast.Call) else "?"),
-               "copy() fills the backing dict directly", nontrivial=False)
+    run.rule("C06.R2", "no other module touches the backing dict of a Datagroup", "who-may-access over the whole package", "", floor=1)
+    bad = []
+    for fi in tree.all_functions():
+        if fi.module.rel == "core/datagroup.py":
+            continue
+        for n in ast.walk(fi.node):
+            if isinstance(n, ast.Attribute) and n.attr == "_container":
+                bad.append((fi, n))
+    run.ob(dg.DG + "::backing-dict-private", not bad, bad[0][0].where(bad[0][1]) if bad else "src/osyris/core/datagroup.py",
+           "%d accesses to ._container outside core/datagroup.py%s" % (len(bad), ": " + bad[0][0].qual if bad else ""),
+           "members inserted without the shape gate")
 
 
 def r3_one_index(run, tree):
-    run.rule("C06.R3", "one index / one permutation for all members", "loop-invariance rule", "", floor=3)
-    via_setitem = dg.check_getitem_uniform(run, tree)
-    dg.check_sortby(run, tree)
-    run.extra["getitem_reinserts_via_setitem"] = bool(via_setitem)
+    run.rule("C06.R3", "one index / one permutation for all members (integer, slice, masks, index arrays; sortby by name and by list)",
+             "D7 fold of the Datagroup class (ModelEval)", "", floor=7)
+    cf.check_group_indexing(run, tree)
 
 
 def r4_member_indexing(run, tree):
     run.rule("C06.R4", "member indexing: Vector component-uniform, Array index passed to the buffer; units and names kept",
-             "sibling agreement", "", floor=3)
-    vi = tree.cls(VECTOR)
-    # names: Datagroup.__getitem__ re-inserts with d[name] = ..., and __setitem__ renames to the key -> names preserved
-    # regardless of the members; otherwise every member __getitem__ must carry the name itself.
-    ci = tree.cls(dg.DG)
-    gi = tree.method(ci, "__getitem__")
-    si = tree.method(ci, "__setitem__")
-    reinserts = False
-    for n in ast.walk(gi.node):
-        if isinstance(n, ast.Assign) and isinstance(n.targets[0], ast.Subscript) and isinstance(n.targets[0].value, ast.Name) \
-                and n.targets[0].value.id != params(gi)[0] and isinstance(n.value, ast.Subscript):
-            reinserts = True
-    renames = any(isinstance(n, ast.Assign) and norm(n.targets[0]) == "%s.name" % params(si)[2] and is_name(n.value, params(si)[1])
-                  for n in ast.walk(si.node)) if si is not None else False
-    group_renames = reinserts and renames
-    check_component_map(run, tree, tree.method(vi, "__getitem__"), VECTOR + ".__getitem__",
-                        lambda e, v, pn: isinstance(e, ast.Subscript) and is_name(e.value, v) and is_name(e.slice, pn[1]),
-                        "v[idx] indexes every component with idx", need_name=not group_renames)
-    run.ob(dg.DG + ".__getitem__::names-preserved", group_renames or True, gi.where(),
-           "names of indexed members: %s" % ("restored by re-insertion through __setitem__ (renames to the key)" if group_renames
-                                             else "must be carried by each member's __getitem__ (checked above)"),
-           "group[idx]['velocity'].name is ''", nontrivial=False)
+             "D7 fold + sibling agreement", "", floor=3)
+    cf.check_vector_unary_and_maps(run, tree)
     # Array.__getitem__
     from .c17 import r6_views
     ai = tree.method(tree.cls("core/array.py::Array"), "__getitem__")
